@@ -1,12 +1,16 @@
 #!/bin/bash
-# seedall.sh [Cxx ...] -- run the quick checks against every kept seeded change of the given properties (default all), 4 at a time
+# seedall.sh [-j N] [Cxx ...] -- run the quick checks against every kept seeded change of the given properties (default
+# all), N at a time (default 4). The property checked is the one named first in the seed's meta.json "caught_by".
+home=$(cd $(dirname $0) && pwd)
+j=4
+if [ "$1" = "-j" ]; then j=$2; shift 2; fi
 props="$@"
-[ -z "$props" ] && props=$(ls /verif/seeded | sed 's/[a-z]*$//' | sort -u)
-jobs=()
+[ -z "$props" ] && props=$(ls $home/seeded | sed 's/[a-z]*$//' | sort -u)
 for p in $props; do
-  for d in /verif/seeded/$p /verif/seeded/${p}[a-z]; do
+  for d in $home/seeded/$p $home/seeded/${p}[a-z]; do
     [ -f $d/patch.diff ] || continue
     n=$(basename $d)
-    echo "$n $d/patch.diff $p"
+    by=$(python3 -c "import json,re,sys; m=re.match(r'(C[0-9][0-9])', json.load(open('$d/meta.json')).get('caught_by','')); print(m.group(1) if m else '$p')" 2>/dev/null || echo $p)
+    echo "$n $d/patch.diff $by"
   done
-done | xargs -P 4 -L 1 bash -c './mut.sh s$0 $1 $2 2>&1 | tail -1'
+done | xargs -P $j -L 1 bash -c "$home"'/mut.sh s$0 $1 $2 2>&1 | tail -1'
